@@ -22,6 +22,17 @@ def unpack(k):
 def model_skel(ctx, case, iface, mask, op, k, sizes):
     home = next(f["path"] for f in case["files"] for x in f["nodes"] if x["k"] == "interface" and x["name"] == iface)
     sub = case if home == case["main"] else dict(case, main=home, incdirs=list(case.get("incdirs", [])) + ["."], fsmodel=None)
+    if any(m_.get("implemented") for f_ in case["files"] for n_ in f_["nodes"] if n_["k"] == "interface" for m_ in n_["members"]):
+        # the model's question is "would the skeleton serve this envelope": an optional method
+        # the user did implement is served like any other
+        import copy as _copy
+        sub = _copy.deepcopy(sub)
+        for f_ in sub["files"]:
+            for n_ in f_["nodes"]:
+                if n_["k"] == "interface":
+                    for m_ in n_["members"]:
+                        if m_.get("implemented"):
+                            m_["optional"] = False
     r = ctx.driver.ask(f"skel {idl.case_tokens(sub)} {iface} {1 if mask else 0} {op} {k} {len(sizes)} " + " ".join(map(str, sizes)))
     out = {}
     for l in r:
@@ -199,7 +210,7 @@ def run(ctx, prop):
                 must_refuse = None
                 if mid not in ops:
                     must_refuse = "unknown op"
-                elif ops[mid].get("optional"):
+                elif ops[mid].get("optional") and not ops[mid].get("implemented"):
                     must_refuse = "optional not provided"
                 elif me["k"] != pack(mink_counts(case, ops[mid])):
                     must_refuse = "counts differ"
